@@ -853,7 +853,8 @@ def c09(tier):
     runs = []
     HCH = "-~_=─–—┄═‾¯"
     VCH = "|:!│╎┊┆║"
-    lengths = sorted(set(list(range(1, 14)) + [r.randint(14, maxlen) for _ in range(10)] + [maxlen]))
+    # (the quick tier also takes the far end of the quantifier: runs of 150 and 400)
+    lengths = sorted(set(list(range(1, 14)) + [r.randint(14, maxlen) for _ in range(10)] + [maxlen] + ([150, 400] if tier == "quick" else [])))
     for ch in HCH + VCH + "/\\╱╲":
         for ln in lengths:
             if ch in ":!" and ln < 2:
@@ -1518,6 +1519,10 @@ def c05(tier):
                 boxes.append(gen_box(r, w, h, r.randint(0, 5), r.randint(0, 3), kind))
     for _ in range(6 if tier == "quick" else 60):
         boxes.append(gen_box(r, r.randint(40, 70), r.randint(3, 6), r.randint(0, 5), r.randint(0, 3), r.choice(kinds)))
+    # tall boxes: the heights at the far end of the quantifier (a side of thirty rows next to a half-cell stub)
+    for hh in ([20, 27, 28, 29, 30] if tier == "quick" else list(range(20, 31))):
+        for kind in ("sharp", "round", "uni"):
+            boxes.append(gen_box(r, r.randint(1, 6), hh, r.randint(0, 5), r.randint(0, 3), kind))
     obs = observe.observe([{"input": t} for t, _ in boxes], tag="C05A")
     for (t, b), o in zip(boxes, obs):
         run.add_event({"props": ["C05box", "C05s"], "rows": o["rows"], "doc": o["doc"], "box": b}, {"input": t, "box": b})
